@@ -411,6 +411,8 @@ def wrapped_fail(lits, pidx, legacy):
                 lines.append(whole[:i] + "a" + whole[i + 2:])
     lines.append(whole[:spans[0][1]])
     lines.append(whole[spans[-1][0]:])
+    if whole.upper() != whole:
+        lines += [whole.upper(), "zz " + whole.upper() + " zz"]  # differs in letter case only: not the text
     if lits[-1]:
         lines += [whole + "7", whole + "a", "zz " + whole + "7 zz"]
     if lits[0]:
